@@ -103,7 +103,7 @@ func (g *Generator) generateArgumentsForMethod(obj *tlparser.Method) []jen.Code 
 	items := make([]jen.Code, 0)
 
 	for i, p := range obj.Parameters {
-		item := jen.Id(goify(p.Name, false))
+		item := jen.Id(goifyArgument(p.Name))
 		if i == len(obj.Parameters)-1 || p.Type != obj.Parameters[i+1].Type || p.IsVector != obj.Parameters[i+1].IsVector {
 			if p.Type == "bitflags" {
 				continue // ну а зачем?
@@ -132,7 +132,7 @@ func (g *Generator) generateMethodArgumentForMakingRequest(obj *tlparser.Method)
 			continue // ну а зачем?
 		}
 
-		dict[jen.Id(goify(p.Name, true))] = jen.Id(goify(p.Name, false))
+		dict[jen.Id(goify(p.Name, true))] = jen.Id(goifyArgument(p.Name))
 	}
 
 	return jen.Op("&").Id(goify(obj.Name, true) + "Params").Values(dict)
